@@ -1,8 +1,14 @@
     // ===== src/filter/bcj/ppc.rs =====
-    use crate::filter::bcj::verif_kani::bcj_group_roundtrip;
+    use crate::filter::bcj::verif_kani::{bcj_group_roundtrip, bcj_split_homomorphism};
     #[kani::proof]
     #[kani::unwind(10)]
     fn c11_bcj_ppc_group() { bcj_group_roundtrip::<8>(BCJFilter::new_power_pc, 4, 0, 3); }
     #[kani::proof]
     #[kani::unwind(10)]
     fn c11_bcj_ppc_short() { bcj_group_roundtrip::<5>(BCJFilter::new_power_pc, 4, 0, 3); }
+    #[kani::proof]
+    #[kani::unwind(14)]
+    fn c07_bcj_ppc_split_k6_enc() { bcj_split_homomorphism::<10>(BCJFilter::new_power_pc, 4, 6, true); }
+    #[kani::proof]
+    #[kani::unwind(14)]
+    fn c07_bcj_ppc_split_k6_dec() { bcj_split_homomorphism::<10>(BCJFilter::new_power_pc, 4, 6, false); }
